@@ -166,7 +166,7 @@ class ParserState:
 
     def peek(self) -> str | None:
         """Return the value at the top of the user stack, or None if empty."""
-        return self.user_stack.peek()
+        return self.user_stack.peek() if self.user_stack else None
 
     def peek_slice(
         self, start: int | None = None, end: int | None = None
